@@ -408,22 +408,20 @@ class ChooseOp(IRDLOperation):
         data_operand_types = ChooseOp._check_operand_types(data_operands, operations)
         # Default operation
         default_block = Block(arg_types=data_operand_types)
-        value_mapper = {
-            SSAValue.get(arg): SSAValue.get(val)
-            for arg, val in zip(operations[0].operands, default_block.args, strict=True)
-        }
-        default_block.add_ops([result := operations[0].clone(value_mapper), YieldOp(result)])
+        # Operand i of the operation is data operand i of the choose_op: connect positionally
+        # (a value -> argument map would tie both operands of e.g. `mulf %x, %x` to the last argument)
+        result = operations[0].clone()
+        result.operands = default_block.args
+        default_block.add_ops([result, YieldOp(result)])
         default_region = Region(default_block)
         # Non-default
         case_regions: list[Region] = []
         if len(operations) > 1:
             for operation in operations[1:]:
                 case_block = Block(arg_types=data_operand_types)
-                value_mapper = {
-                    SSAValue.get(arg): SSAValue.get(val)
-                    for arg, val in zip(operation.operands, case_block.args, strict=True)
-                }
-                case_block.add_ops([result := operation.clone(value_mapper), YieldOp(result)])
+                result = operation.clone()
+                result.operands = case_block.args
+                case_block.add_ops([result, YieldOp(result)])
                 case_regions.append(Region(case_block))
         return ChooseOp(
             name=name,
